@@ -76,16 +76,26 @@ BigUint(v) == v[1] = "uint" /\ Len(v[2]) = 8 /\ v[2][1] >= 128                  
 -----------------------------------------------------------------------------
 (* Number strings.                                                         *)
 IsDigit(c) == c >= 48 /\ c <= 57
+\* decimal digits (code units, most significant first) -> BigNat.  BigNat's limbs are base 10^4, so four digits ARE one limb (O(n);
+\* BigNat!FromDec multiplies by ten per digit, O(n^2), which is too slow for the 600-digit numbers of the 255 / 256 byte bignums)
+RECURSIVE LimbsOf(_, _, _)
+LimbsOf(ds, hi, acc) ==
+  IF hi < 1 THEN acc
+  ELSE LET d(k) == IF k >= 1 THEN ds[k] - 48 ELSE 0 IN
+       LimbsOf(ds, hi - 4, Append(acc, (1000 * d(hi - 3)) + (100 * d(hi - 2)) + (10 * d(hi - 1)) + d(hi)))
+FromDec(ds) == N!Norm(LimbsOf(ds, Len(ds), <<>>))
 AllDigits(s) == s # <<>> /\ \A k \in 1..Len(s) : IsDigit(s[k])
 First(s, S) == LET ks == {k \in 1..Len(s) : s[k] \in S} IN IF ks = {} THEN 0 ELSE CHOOSE k \in ks : \A m \in ks : k <= m
 \* "[-]digits" : <<"ok", signed integer>> | <<"bad">>     (semantic_tag bigint: an integer as a decimal string)
 DecInt(s) == LET neg == s # <<>> /\ s[1] = 45
                  ds == IF neg THEN Tail(s) ELSE s
-             IN IF AllDigits(ds) THEN <<"ok", SInt(neg, N!FromDec(ds))>> ELSE <<"bad">>
+             IN IF AllDigits(ds) THEN <<"ok", SInt(neg, FromDec(ds))>> ELSE <<"bad">>
 \* "[+-]digits"
 ExpInt(s) == LET sg == s # <<>> /\ (s[1] = 43 \/ s[1] = 45)
                  ds == IF sg THEN Tail(s) ELSE s
-             IN IF AllDigits(ds) THEN <<"ok", SInt(sg /\ s[1] = 45, N!FromDec(ds))>> ELSE <<"bad">>
+             IN IF AllDigits(ds) THEN <<"ok", SInt(sg /\ s[1] = 45, FromDec(ds))>> ELSE <<"bad">>
+RECURSIVE TrailPad(_, _)
+TrailPad(s, k) == IF k >= 1 /\ s[k] = 61 THEN TrailPad(s, k - 1) ELSE Len(s) - k          \* number of trailing '='
 RECURSIVE TrailZeros(_, _)
 TrailZeros(ds, k) == IF k >= 1 /\ ds[k] = 48 THEN TrailZeros(ds, k - 1) ELSE Len(ds) - k
 (* Decimal numbers "[-]digits[.digits][(e|E)[+-]digits]":                  *)
@@ -127,7 +137,7 @@ HexDigits(s, k, acc) == IF k > Len(s) THEN acc ELSE HexDigits(s, k + 1, Append(a
 HexNat(s) == N!FromBase(HexDigits(s, 1, <<>>), 16)
 ExpRd(s, rd) == LET sg == s # <<>> /\ (s[1] = 43 \/ s[1] = 45)
                     ds == IF sg THEN Tail(s) ELSE s
-                IN IF rd = 10 THEN (IF AllDigits(ds) THEN <<"ok", SInt(sg /\ s[1] = 45, N!FromDec(ds))>> ELSE <<"bad">>)
+                IN IF rd = 10 THEN (IF AllDigits(ds) THEN <<"ok", SInt(sg /\ s[1] = 45, FromDec(ds))>> ELSE <<"bad">>)
                    ELSE (IF AllHex(ds) THEN <<"ok", SInt(sg /\ s[1] = 45, HexNat(ds))>> ELSE <<"bad">>)
 HexFloat(s, rd) ==
   LET sg == s # <<>> /\ (s[1] = 43 \/ s[1] = 45)
@@ -162,6 +172,15 @@ EpochInt(base) == IF IsInt(base) THEN <<"ok", IntOf(base)>> ELSE IF base[1] = "t
 
 -----------------------------------------------------------------------------
 (* Class(f, tag, base): see the header.  tag = "none" for untagged leaves. *)
+\* contents that RFC 8949 3.4 prescribes for the text tags (a string outside them is outside the tag's domain: dc)
+IsAlpha(c) == (c >= 65 /\ c <= 90) \/ (c >= 97 /\ c <= 122)
+IsDateTime(s) == /\ Len(s) >= 20 /\ s[5] = 45 /\ s[8] = 45 /\ s[11] \in {84, 116} /\ s[14] = 58 /\ s[17] = 58        \* RFC 3339 date "T" time offset
+                 /\ \A k \in {1, 2, 3, 4, 6, 7, 9, 10, 12, 13, 15, 16, 18, 19} : IsDigit(s[k])
+                 /\ (s[Len(s)] \in {90, 122} \/ (Len(s) >= 25 /\ s[Len(s) - 5] \in {43, 45} /\ s[Len(s) - 2] = 58))
+IsUri(s) == LET k == First(s, {58}) IN k > 1 /\ IsAlpha(s[1]) /\ \A i \in 1..(k - 1) : IsAlpha(s[i]) \/ IsDigit(s[i]) \/ s[i] \in {43, 45, 46}
+IsBase64Text(tag, s) == LET extra == IF tag = "base64url" THEN {45, 95} ELSE {43, 47}                                    \* RFC 4648 sections 5 / 4
+                            pad == TrailPad(s, Len(s)) IN
+                        pad <= 2 /\ \A i \in 1..(Len(s) - pad) : IsAlpha(s[i]) \/ IsDigit(s[i]) \/ s[i] \in extra
 ClassCbor(tag, base) ==
   CASE tag = "none" -> "plain"
     [] tag = "bigint" -> IF base[1] = "tstr" /\ DecInt(base[2])[1] = "ok" THEN "in" ELSE "dc"              \* tags 2 / 3; other strings: no document says what a bigint string may look like
@@ -177,8 +196,10 @@ ClassCbor(tag, base) ==
          IF base[1] # "tstr" THEN "dc"
          ELSE IF \A rd \in Radices : LET p == HexFloat(base[2], rd) IN p[1] = "ok" /\ InInt64(p[4]) THEN "in"   \* tag 5 [e, m]
          ELSE "dc"                                                            \* not readable in both radices (see HexFloat), or exponent beyond int64
-    [] tag \in {"datetime", "uri"} -> IF base[1] = "tstr" THEN "in" ELSE "dc"                 \* tags 0, 32
-    [] tag \in {"base64", "base64url"} -> IF base[1] \in {"tstr", "bstr"} THEN "in" ELSE "dc"  \* tags 34 / 33 (text), 22 / 21 (bytes)
+    [] tag = "datetime" -> IF base[1] = "tstr" /\ IsDateTime(base[2]) THEN "in" ELSE "dc"      \* tag 0: "standard date/time string" (RFC 3339); other text: a validating encoder may refuse it
+    [] tag = "uri" -> IF base[1] = "tstr" /\ IsUri(base[2]) THEN "in" ELSE "dc"                \* tag 32: URI (RFC 3986: scheme ":" ...)
+    [] tag \in {"base64", "base64url"} ->                                                     \* tags 34 / 33 (text in that alphabet), 22 / 21 (bytes)
+         IF base[1] = "bstr" THEN "in" ELSE IF base[1] = "tstr" /\ IsBase64Text(tag, base[2]) THEN "in" ELSE "dc"
     [] tag = "base16" -> IF base[1] = "bstr" THEN "in" ELSE IF base[1] = "tstr" THEN "plain" ELSE "dc"   \* tag 23 (bytes); cbor.md lists no base16 text tag
     [] tag = "epoch_second" -> IF IsInt(base) \/ base[1] = "f64" THEN "in" ELSE "dc"           \* tag 1 on integer or float
     [] OTHER -> "dc"      \* epoch_milli / epoch_nano: CBOR has only seconds (tag 1) and cbor.md does not say how the other units are mapped
@@ -258,8 +279,12 @@ Pair(r, t) == IF r[1] = "tag" /\ TagNum(r) = t /\ r[3][1] = "arr" /\ Len(r[3][2]
               ELSE <<"bad">>
 TextTag(tag) == CASE tag = "datetime" -> 0 [] tag = "uri" -> 32 [] tag = "base64url" -> 33 [] tag = "base64" -> 34
 BytesTag(tag) == CASE tag = "base64url" -> 21 [] tag = "base64" -> 22 [] tag = "base16" -> 23
+\* r is the bignum of the signed integer a: compared in the byte domain (BigNat!ToBytes; leading zero bytes are permitted by RFC 8949 3.4.3)
+BignumIs(r, a) == /\ r[1] = "tag" /\ r[3][1] = "bstr"
+                  /\ IF a[1] THEN TagNum(r) = 3 /\ C!StripZeros(r[3][2]) = N!ToBytes(N!Sub(a[2], <<1>>))
+                             ELSE TagNum(r) = 2 /\ C!StripZeros(r[3][2]) = N!ToBytes(a[2])
 RefCborIn(tag, base, r) ==
-  CASE tag = "bigint" -> BignumOf(r) = DecInt(base[2])
+  CASE tag = "bigint" -> BignumIs(r, DecInt(base[2])[2])
     [] tag = "bigdec" -> LET p == Pair(r, 4) IN p[1] = "ok" /\ Canon10(p[3][1], N!ToDec(p[3][2]), p[2]) = DecCanon(base[2])
     [] tag = "bigfloat" -> LET p == Pair(r, 5) IN p[1] = "ok" /\ \E rd \in Radices : Canon2(p[3][1], p[3][2], p[2]) = HexCanon(base[2], rd)
     [] tag = "epoch_second" -> TagNum(r) = 1 /\ r[3][1] \in {"uint", "nint", "f16", "f32", "f64"} /\ (IsInt(base) <=> IsInt(r[3])) /\ Equiv(r[3], base)
